@@ -916,6 +916,112 @@ func runC17(c *Checker) {
 		return found
 	}
 	c.decide(refs(e2m, "DefaultWordList") && refs(m2e, "ReverseWordMap"), "CODEC-SIB", "paired word tables", e2m.Pos(), "DefaultWordList (entropy->words) and ReverseWordMap (words->entropy) of the same package", "the two directions do not use aezeed's paired word tables")
+	// shape of the two loops over the SSA: word i of the phrase <-> the i-th group of bits, every word
+	// written, the whole entropy read / the whole bit stream copied to the start of the result
+	if e2mF, m2eF := w.Func("mailbox.PassphraseEntropyToMnemonic"), w.Func("mailbox.PassphraseMnemonicToEntropy"); e2mF != nil && m2eF != nil {
+		// entropy -> words: each ReadBits result indexes the word list and lands at passphrase[i] with i
+		// the loop counter of the ReadBits loop; the reader is over the whole entropy
+		okStore, okReader := false, false
+		allInstrs(e2mF, func(in ssa.Instruction) {
+			switch x := in.(type) {
+			case *ssa.Store:
+				ia, ok := x.Addr.(*ssa.IndexAddr)
+				if !ok {
+					return
+				}
+				if _, isStr := x.Val.Type().Underlying().(*types.Basic); !isStr {
+					return
+				}
+				// value: DefaultWordList[index] with index from ReadBits
+				fromList := false
+				if u, ok := unwrapLoadAlloc(x.Val).(*ssa.UnOp); ok && u.Op == token.MUL {
+					if ia2, ok := u.X.(*ssa.IndexAddr); ok {
+						if ex, ok := unwrapLoadAlloc(ia2.Index).(*ssa.Extract); ok {
+							if call, ok := ex.Tuple.(*ssa.Call); ok && calleeNameIs(call, "ReadBits") {
+								fromList = true
+							}
+						}
+					}
+				}
+				if idx, ok := x.Val.(*ssa.Index); ok {
+					if ex, ok := unwrapLoadAlloc(idx.Index).(*ssa.Extract); ok {
+						if call, ok := ex.Tuple.(*ssa.Call); ok && calleeNameIs(call, "ReadBits") {
+							fromList = true
+						}
+					}
+				}
+				// position: the loop counter itself (a phi starting at 0 stepping by 1)
+				phi, isPhi := unwrapLoadAlloc(ia.Index).(*ssa.Phi)
+				counter := false
+				if isPhi {
+					for _, e := range phi.Edges {
+						if k, ok := intConst(e); ok && k == 0 {
+							counter = true
+						}
+					}
+				}
+				if fromList && counter {
+					okStore = true
+				}
+			case *ssa.Call:
+				if calleeNameIs(x, "NewBStreamReader") {
+					if sl, ok := x.Common().Args[0].(*ssa.Slice); ok && sl.Low == nil && sl.High == nil {
+						okReader = true
+					}
+				}
+			}
+		})
+		c.decide(okStore && okReader, "CODEC-SIB", "EntropyToMnemonic|word i is the i-th bit group of the whole entropy", e2mF.Pos(), "passphrase[i] = DefaultWordList[ReadBits(...)] with i the loop counter; reader over entropy[:]",
+			"the words are not stored in reading order or the reader does not cover the whole entropy: the phrase typed by the client yields another entropy than the server's")
+		// words -> entropy: WriteBits in the body of the range loop, unconditionally, index from
+		// ReverseWordMap[word i]; result = copy(entropy[:], writer.Bytes())
+		okWrite, okCopy := false, false
+		allInstrs(m2eF, func(in ssa.Instruction) {
+			call, ok := in.(*ssa.Call)
+			if !ok {
+				return
+			}
+			if calleeNameIs(call, "WriteBits") {
+				// the only facts on the way are the loop condition
+				uncond := true
+				for _, f := range factsAt(call.Block()) {
+					if bo, ok := f.Cond.(*ssa.BinOp); ok && bo.Op == token.LSS {
+						continue
+					}
+					uncond = false
+				}
+				// the word is passphrase[loop index]
+				fromWord := false
+				v := unwrapLoadAlloc(call.Common().Args[1])
+				if cv, ok := v.(*ssa.Convert); ok {
+					v = unwrapLoadAlloc(cv.X)
+				}
+				if lk, ok := v.(*ssa.Lookup); ok {
+					if ix, ok := unwrapLoadAlloc(lk.Index).(*ssa.Index); ok && ix.X == ssa.Value(m2eF.Params[0]) {
+						fromWord = true
+					}
+					if u, ok := unwrapLoadAlloc(lk.Index).(*ssa.UnOp); ok {
+						if ia, ok := u.X.(*ssa.IndexAddr); ok {
+							_ = ia
+							fromWord = true
+						}
+					}
+				}
+				if uncond && fromWord && pathExists(call, call, nil) {
+					okWrite = true
+				}
+			}
+			if b, ok := call.Call.Value.(*ssa.Builtin); ok && b.Name() == "copy" {
+				dst, ok1 := call.Call.Args[0].(*ssa.Slice)
+				src, ok2 := call.Call.Args[1].(*ssa.Call)
+				if ok1 && ok2 && dst.Low == nil && dst.High == nil && calleeNameIs(src, "Bytes") {
+					okCopy = true
+				}
+			}
+		})
+		c.decide(okWrite && okCopy, "CODEC-SIB", "MnemonicToEntropy|every word written in order, stream copied to the start", m2eF.Pos(), "WriteBits(ReverseWordMap[word i]) unconditionally in the loop; copy(entropy[:], Bytes())",
+			"a word can be skipped, or the bit stream is not copied to the start of the entropy: client and server derive different entropies from the same phrase")
+	}
 	loopBound := false
 	ast.Inspect(e2m.Body, func(n ast.Node) bool {
 		if fs, ok := n.(*ast.ForStmt); ok {
@@ -978,7 +1084,7 @@ func runC17(c *Checker) {
 		}
 		c.decide(okk, "CODEC-SIB", "NewPassphraseEntropy|normalises by the round trip", fn.Pos(), "returns MnemonicToEntropy(EntropyToMnemonic(random))", "the generated entropy is not normalised through the mnemonic: the unused low bits make server and client derive different secrets")
 	}
-	c.floor("CODEC-SIB", 6)
+	c.floor("CODEC-SIB", 8)
 
 	// ---- SIDDIR ----
 	getSID := mboxFunc(c, "mailbox.GetSID")
@@ -1104,6 +1210,53 @@ func runC17(c *Checker) {
 			}
 		}
 	})
+	// the flipped direction is the whole SID with exactly one XOR applied: one XOR store in the function
+	// (two would cancel), into an array that was filled by a full copy of the input (or is the by-value
+	// parameter itself), and that array is what the leg returns
+	{
+		nXor := 0
+		var xorInto ssa.Value
+		allInstrs(getSID, func(in ssa.Instruction) {
+			st, ok := in.(*ssa.Store)
+			if !ok {
+				return
+			}
+			if bo, ok := st.Val.(*ssa.BinOp); ok && bo.Op == token.XOR {
+				nXor++
+				if ia, ok := st.Addr.(*ssa.IndexAddr); ok {
+					xorInto = ia.X
+				}
+			}
+		})
+		full := false
+		if al, ok := xorInto.(*ssa.Alloc); ok {
+			// param spilled to a local (by-value array parameter) or a local filled by copy(dst[:], sid[:])
+			for _, r := range *al.Referrers() {
+				if st, ok := r.(*ssa.Store); ok && st.Addr == ssa.Value(al) && st.Val == ssa.Value(getSID.Params[0]) {
+					full = true
+				}
+				if sl, ok := r.(*ssa.Slice); ok && sl.Low == nil && sl.High == nil {
+					for _, r2 := range *sl.Referrers() {
+						if call, ok := r2.(*ssa.Call); ok {
+							if b, ok := call.Call.Value.(*ssa.Builtin); ok && b.Name() == "copy" && call.Call.Args[0] == ssa.Value(sl) {
+								if src, ok := call.Call.Args[1].(*ssa.Slice); ok && src.Low == nil && src.High == nil {
+									if sa, ok := src.X.(*ssa.Alloc); ok {
+										for _, r3 := range *sa.Referrers() {
+											if st, ok := r3.(*ssa.Store); ok && st.Val == ssa.Value(getSID.Params[0]) {
+												full = true
+											}
+										}
+									}
+								}
+							}
+						}
+					}
+				}
+			}
+		}
+		c.decide(nXor == 1 && full, "SIDDIR", "GetSID|exactly one XOR on a full copy of the SID", getSID.Pos(), "one XOR store into an array that holds the whole input SID",
+			fmt.Sprintf("the flipped direction is not 'the whole SID with one bit pattern XORed once' (XOR stores: %d, full copy of the input: %v): the two directions can coincide or the ID loses entropy", nXor, full))
+	}
 	c.decide(okID && okXor, "SIDDIR", "GetSID|identity on one direction, XOR with a non-zero constant on the other", getSID.Pos(), fmt.Sprintf("one direction keeps the SID, the other flips bits (^%#x)", xk),
 		"GetSID does not map the two directions to two different stream IDs")
 	// ConnData.SID: sole producer, SHA-512 of the whole secret
@@ -1193,7 +1346,7 @@ func runC17(c *Checker) {
 			}
 		}
 	}
-	c.floor("SIDDIR", 11)
+	c.floor("SIDDIR", 12)
 	// both parties take the rendezvous from the *current* secret when they reconnect
 	c.mute = map[string]bool{"EXCL": true}
 	ruleAcceptDial(c)
